@@ -1,2 +1,1002 @@
-(* placeholder: replaced by the real proofs *)
+(* C08_Proofs.v — inductive invariant of the all-interleavings WorkPool model (C08_Model.v) and the proofs of
+   the property theorems.  `Inv` holds in every state reachable from `init` by ANY sequence of labels
+   (step_inv / reachable_inv); the property theorems are read off it. *)
+From Coq Require Import List Bool Arith Lia.
 From PV Require Import C08.C08_Model.
+Import ListNotations.
+
+(* ---- list lemmas ---- *)
+Lemma length_upd {A} (l : list A) i v : length (upd l i v) = length l.
+Proof. revert i; induction l; destruct i; simpl; auto. Qed.
+Lemma nth_error_upd {A} (l : list A) i j v :
+  nth_error (upd l i v) j = if Nat.eqb j i then (match nth_error l i with Some _ => Some v | None => None end) else nth_error l j.
+Proof.
+  revert i j; induction l; intros i j; simpl.
+  - destruct (Nat.eqb j i); destruct i, j; reflexivity.
+  - destruct i as [|i], j as [|j]; simpl; auto.
+Qed.
+Lemma length_modn {A} (l : list A) i f : length (modn l i f) = length l.
+Proof. unfold modn. destruct (nth_error l i); auto using length_upd. Qed.
+Lemma nth_error_modn {A} (l : list A) i j f :
+  nth_error (modn l i f) j = if Nat.eqb j i then option_map f (nth_error l i) else nth_error l j.
+Proof.
+  unfold modn. destruct (nth_error l i) eqn:E.
+  - rewrite nth_error_upd, E. reflexivity.
+  - destruct (Nat.eqb j i) eqn:Ej; auto. apply Nat.eqb_eq in Ej; subst. simpl. auto.
+Qed.
+
+(* ---- phases ---- *)
+Definition exw (w : nat) (p : phase) : bool :=
+  match p with PNew w' | PCopied w' _ | PBody w' _ | PFin w' _ | PPost w' _ => Nat.eqb w' w | _ => false end.
+Definition b2n (b : bool) : nat := if b then 1 else 0.
+Definition count_exec (w : nat) (l : list task) : nat := length (filter (fun t => exw w (t_phase t)) l).
+
+Lemma count_exec_app w l1 l2 : count_exec w (l1 ++ l2) = count_exec w l1 + count_exec w l2.
+Proof. unfold count_exec. rewrite filter_app, app_length. reflexivity. Qed.
+
+Lemma count_exec_upd w l i t v :
+  nth_error l i = Some t ->
+  count_exec w (upd l i v) + b2n (exw w (t_phase t)) = count_exec w l + b2n (exw w (t_phase v)).
+Proof.
+  revert i; induction l as [|a l IH]; intros i H.
+  - destruct i; discriminate.
+  - destruct i as [|i]; simpl in H.
+    + inversion H; subst. unfold count_exec; simpl.
+      destruct (exw w (t_phase t)), (exw w (t_phase v)); simpl; lia.
+    + specialize (IH _ H). unfold count_exec in *; simpl.
+      destruct (exw w (t_phase a)); simpl; lia.
+Qed.
+Lemma count_exec_modn w l i t f :
+  nth_error l i = Some t ->
+  count_exec w (modn l i f) + b2n (exw w (t_phase t)) = count_exec w l + b2n (exw w (t_phase (f t))).
+Proof. intros H. unfold modn. rewrite H. apply count_exec_upd; auto. Qed.
+Lemma count_exec_pos w l i t : nth_error l i = Some t -> exw w (t_phase t) = true -> 1 <= count_exec w l.
+Proof.
+  revert i; induction l as [|a l IH]; intros i H E.
+  - destruct i; discriminate.
+  - destruct i as [|i]; simpl in H.
+    + inversion H; subst. unfold count_exec; simpl. rewrite E. simpl. lia.
+    + specialize (IH _ H E). unfold count_exec in *; simpl. destruct (exw w (t_phase a)); simpl; lia.
+Qed.
+
+(* ---- the ring ---- *)
+Fixpoint rtasks (l : list item) : list nat :=
+  match l with [] => [] | ITask i :: r => i :: rtasks r | IStop :: r => rtasks r end.
+Fixpoint only_stops (l : list item) : bool :=
+  match l with [] => true | IStop :: r => only_stops r | ITask _ :: _ => false end.
+Fixpoint shape_ok (l : list item) : bool :=
+  match l with [] => true | ITask _ :: r => shape_ok r | IStop :: r => only_stops r end.
+
+Lemma rtasks_app a b : rtasks (a ++ b) = rtasks a ++ rtasks b.
+Proof. induction a as [|x a IH]; simpl; auto. destruct x; simpl; congruence. Qed.
+Lemma only_stops_rtasks l : only_stops l = true -> rtasks l = [].
+Proof. induction l as [|x l IH]; simpl; auto. destruct x; auto; discriminate. Qed.
+Lemma only_stops_app_stop l : only_stops l = true -> only_stops (l ++ [IStop]) = true.
+Proof. induction l as [|x l IH]; simpl; auto. destruct x; auto. Qed.
+Lemma shape_app_stop l : shape_ok l = true -> shape_ok (l ++ [IStop]) = true.
+Proof. induction l as [|x l IH]; simpl; auto. destruct x; auto using only_stops_app_stop. Qed.
+Lemma shape_app_task l i : shape_ok l = true -> ~ In IStop l -> shape_ok (l ++ [ITask i]) = true.
+Proof.
+  induction l as [|x l IH]; simpl; auto. destruct x; intros H N.
+  - apply IH; auto.
+  - exfalso; apply N; auto.
+Qed.
+Lemma shape_tail x l : shape_ok (x :: l) = true -> shape_ok l = true.
+Proof. destruct x; simpl; auto. intros H. destruct l as [|y l]; simpl in *; auto. destruct y; auto; discriminate. Qed.
+Lemma shape_stop_head l : shape_ok (IStop :: l) = true -> rtasks l = [].
+Proof. simpl. apply only_stops_rtasks. Qed.
+
+(* ---- the invariant ---- *)
+Definition task_ok (intr : bool) (i : nat) (t : task) : Prop :=
+  match t_phase t with
+  | PRing | PGot _ | PNew _ => t_runs t = 0 /\ t_fin t = 0 /\ t_del t = 0 /\ t_sig t = false
+  | PCopied _ r => r = i /\ t_runs t = 0 /\ t_fin t = 0 /\ t_del t = 0 /\ t_sig t = false
+  | PBody _ r => r = i /\ t_runs t = 1 /\ t_fin t = 0 /\ t_del t = 0 /\ t_sig t = false
+  | PFin _ r => r = i /\ t_runs t = 1 /\ t_fin t = 1 /\ t_del t = 0 /\ t_sig t = false
+  | PPost _ r => r = i /\ t_runs t = 1 /\ t_fin t = 1 /\ t_del t = (if t_call t then 0 else 1) /\ t_sig t = t_call t
+  | PDone => t_runs t = 1 /\ t_fin t = 1 /\ t_del t = (if t_call t then 0 else 1) /\ t_sig t = t_call t
+  end /\ (intr = false -> t_ret t = true -> t_sig t = true) /\ (t_ret t = true -> t_call t = true).
+
+Definition tw_ok (s : state) (i : nat) (t : task) : Prop :=
+  match t_phase t with
+  | PRing => In i (rtasks (s_ring s))
+  | PGot w => exists k, getw s w = Some k /\ w_pc k = WGot (ITask i)
+  | PNew w => exists k, getw s w = Some k /\ w_slot k = Some i /\
+                ((w_pc k = WCreated i /\ w_cur k = None) \/ (w_cur k = Some i /\ (w_pc k = WLoop \/ w_pc k = WInline i))) /\
+                (s_inline s = true -> w_pc k = WInline i)
+  | PCopied w _ | PBody w _ | PFin w _ | PPost w _ =>
+      exists k, getw s w = Some k /\ (s_inline s = true -> w_pc k = WInline i)
+  | PDone => True
+  end.
+
+Definition worker_ok (s : state) (w : nat) (k : worker) : Prop :=
+  w_reg k = negb (is_out (w_pc k)) /\
+  w_running k = count_exec w (s_tasks s) /\
+  (is_out (w_pc k) = true -> w_running k = 0) /\
+  (s_dpc s = DDone -> w_reg k = false) /\
+  match w_pc k with
+  | WGot (ITask i) => exists t, gett s i = Some t /\ t_phase t = PGot w
+  | WGot IStop | WDrain | WExit => s_dpc s <> DIdle /\ rtasks (s_ring s) = []
+  | WCreated i => (exists t, gett s i = Some t /\ t_phase t = PNew w) /\ s_inline s = false
+  | WInline i => s_inline s = true
+  | _ => True
+  end.
+
+Record Inv (s : state) : Prop := mkInv {
+  inv_tasks : forall i t, gett s i = Some t -> task_ok (s_intr s) i t /\ tw_ok s i t;
+  inv_workers : forall w k, getw s w = Some k -> worker_ok s w k;
+  inv_ring_nodup : NoDup (rtasks (s_ring s));
+  inv_ring_in : forall i, In i (rtasks (s_ring s)) -> exists t, gett s i = Some t /\ t_phase t = PRing;
+  inv_shape : shape_ok (s_ring s) = true;
+  inv_idle : s_dpc s = DIdle -> ~ In IStop (s_ring s);
+  inv_flags : g_badcopy s = false /\ g_badcount s = false /\ g_ringuaf s = false /\ (s_intr s = false -> g_uaf s = false)
+}.
+
+(* ---- accessors under updates ---- *)
+Lemma gett_modt s i f j : gett (modt s i f) j = if Nat.eqb j i then option_map f (gett s i) else gett s j.
+Proof. unfold gett, modt. simpl. apply nth_error_modn. Qed.
+Lemma getw_modw s w f v : getw (modw s w f) v = if Nat.eqb v w then option_map f (getw s w) else getw s v.
+Proof. unfold getw, modw. simpl. apply nth_error_modn. Qed.
+
+Lemma init_inv inline cap no nj intr : Inv (init inline cap no nj intr).
+Proof.
+  constructor; simpl.
+  - intros i t H. unfold gett in H; simpl in H. destruct i; discriminate.
+  - intros w k H. unfold getw in H; simpl in H.
+    assert (k = worker0 true \/ k = worker0 false) as [-> | ->].
+    { apply nth_error_In in H. apply in_app_or in H. destruct H as [H|H]; apply repeat_spec in H; auto. }
+    + unfold worker_ok; simpl. repeat split; auto; try discriminate.
+    + unfold worker_ok; simpl. repeat split; auto; try discriminate.
+  - constructor.
+  - intros i [].
+  - reflexivity.
+  - intros _ [].
+  - repeat split; auto.
+Qed.
+
+Ltac brk H :=
+  repeat match type of H with
+  | match ?x with _ => _ end = Some _ => let E := fresh "E" in destruct x eqn:E; try discriminate H
+  | (if ?x then _ else _) = Some _ => let E := fresh "E" in destruct x eqn:E; try discriminate H
+  end.
+
+Lemma disp_at_spec s w k : disp_at s w = Some k -> getw s w = Some k /\ w_cur k = None.
+Proof. unfold disp_at. destruct (getw s w) as [k'|]; try discriminate. destruct (w_cur k') eqn:E; try discriminate. intros H; inversion H; subst; auto. Qed.
+Lemma owns_spec s w i : owns s w i = true -> exists k, getw s w = Some k /\ w_cur k = Some i.
+Proof. unfold owns. destruct (getw s w) as [k|]; try discriminate. destruct (w_cur k) as [j|] eqn:E; try discriminate.
+  intros H. apply Nat.eqb_eq in H; subst. eauto. Qed.
+
+Definition flags_ok (s : state) : Prop :=
+  g_badcopy s = false /\ g_badcount s = false /\ g_ringuaf s = false /\ (s_intr s = false -> g_uaf s = false).
+
+Lemma exw_true w p : exw w p = true -> p <> PRing /\ (forall w', p <> PGot w') /\ p <> PDone.
+Proof. destruct p; simpl; try discriminate; repeat split; try discriminate; intros; discriminate. Qed.
+
+(* a task moves between execution phases of one worker; ring, workers, destroyer untouched *)
+Lemma inv_local s s' i t t' :
+  Inv s -> gett s i = Some t ->
+  (t_phase t = PRing -> t_phase t' = PRing) ->
+  (forall w, t_phase t = PGot w -> t_phase t' = PGot w) ->
+  (forall w, exw w (t_phase t') = exw w (t_phase t)) ->
+  task_ok (s_intr s) i t' -> tw_ok s i t' ->
+  (forall w k, getw s w = Some k -> w_pc k = WCreated i -> t_phase t' = PNew w) ->
+  s_ring s' = s_ring s -> s_workers s' = s_workers s -> s_dpc s' = s_dpc s ->
+  s_inline s' = s_inline s -> s_intr s' = s_intr s ->
+  s_tasks s' = upd (s_tasks s) i t' -> flags_ok s' -> Inv s'.
+Proof.
+  intros I G NR NG EX TO TW WC Hr Hw Hd Hi Hn Ht HF.
+  assert (Gt : forall j, gett s' j = if Nat.eqb j i then Some t' else gett s j).
+  { intros j. unfold gett. rewrite Ht, nth_error_upd. fold (gett s i). rewrite G. reflexivity. }
+  assert (Gw : forall w, getw s' w = getw s w) by (intros; unfold getw; rewrite Hw; auto).
+  assert (TWF : forall j t1, tw_ok s j t1 -> tw_ok s' j t1).
+  { intros j t1. unfold tw_ok. rewrite Hr, Hi. destruct (t_phase t1); auto; rewrite Gw; auto. }
+  constructor.
+  - intros j t1 H. rewrite Gt in H. destruct (Nat.eqb j i) eqn:Ej.
+    + apply Nat.eqb_eq in Ej; subst j. inversion H; subst t1. rewrite Hn. auto.
+    + rewrite Hn. destruct (inv_tasks _ I _ _ H). auto.
+  - intros w k H. rewrite Gw in H. destruct (inv_workers _ I _ _ H) as (A & B & C & D & F).
+    unfold worker_ok. rewrite Hd, Hr, Hi. repeat split; auto.
+    + rewrite B, Ht.
+      assert (X := count_exec_upd w (s_tasks s) i t t' G). rewrite EX in X. lia.
+    + destruct (w_pc k) eqn:P; auto.
+      * destruct x; auto. destruct F as (t1 & F1 & F2). rewrite Gt.
+        destruct (Nat.eqb i0 i) eqn:Ej; eauto. apply Nat.eqb_eq in Ej; subst.
+        rewrite G in F1; inversion F1; subst. eauto.
+      * destruct F as ((t1 & F1 & F2) & F3). split; auto. rewrite Gt.
+        destruct (Nat.eqb i0 i) eqn:Ej; eauto. apply Nat.eqb_eq in Ej; subst. eauto.
+  - rewrite Hr. apply (inv_ring_nodup _ I).
+  - intros j H. rewrite Hr in H. destruct (inv_ring_in _ I _ H) as (t1 & F1 & F2).
+    rewrite Gt. destruct (Nat.eqb j i) eqn:Ej; eauto. apply Nat.eqb_eq in Ej; subst.
+    rewrite G in F1; inversion F1; subst. eauto.
+  - rewrite Hr. apply (inv_shape _ I).
+  - rewrite Hr, Hd. apply (inv_idle _ I).
+  - exact HF.
+Qed.
+
+Lemma modn_some {A} (l : list A) i t f : nth_error l i = Some t -> modn l i f = upd l i (f t).
+Proof. intros H. unfold modn. rewrite H. reflexivity. Qed.
+Lemma upd_upd_same {A} (l : list A) i a b : upd (upd l i a) i b = upd l i b.
+Proof. revert i; induction l; destruct i; simpl; auto. f_equal; auto. Qed.
+Lemma nth_error_upd_same {A} (l : list A) i t a : nth_error l i = Some t -> nth_error (upd l i a) i = Some a.
+Proof. intros H. rewrite nth_error_upd, Nat.eqb_refl, H. reflexivity. Qed.
+
+Lemma modn_modn_same {A} (l : list A) i t f g :
+  nth_error l i = Some t -> modn (modn l i f) i g = upd l i (g (f t)).
+Proof.
+  intros H. rewrite (modn_some l i t f H).
+  rewrite (modn_some (upd l i (f t)) i (f t) g (nth_error_upd_same l i t (f t) H)).
+  apply upd_upd_same.
+Qed.
+
+Lemma no_created s i t w k :
+  Inv s -> gett s i = Some t -> (forall w', t_phase t <> PNew w') -> getw s w = Some k -> w_pc k <> WCreated i.
+Proof.
+  intros I G N Gk P. destruct (inv_workers _ I _ _ Gk) as (_ & _ & _ & _ & F). rewrite P in F.
+  destruct F as ((t1 & F1 & F2) & _). rewrite G in F1; inversion F1; subst. eapply N; eauto.
+Qed.
+
+Ltac tsk I G := let TO := fresh "TO" in let TW := fresh "TW" in destruct (inv_tasks _ I _ _ G) as [TO TW].
+
+Lemma inv_return s i s' : Inv s -> step s (LReturn i) = Some s' -> Inv s'.
+Proof.
+  intros I H. simpl in H. brk H. inversion H; subst; clear H. tsk I E.
+  apply andb_prop in E0 as [E0 E2]. apply andb_prop in E0 as [E0 E1].
+  eapply inv_local with (t := t) (t' := set_ret t); eauto; try reflexivity.
+  - unfold task_ok in *. simpl. destruct TO as (A & B & C). repeat split; auto.
+  - intros w k Gk P. exfalso. revert P. eapply no_created; eauto.
+    intros w' P. unfold task_ok in TO. rewrite P in TO. destruct TO as ((_ & _ & _ & S) & _). congruence.
+  - simpl. unfold gett in E. erewrite modn_some; eauto.
+  - apply (inv_flags _ I).
+Qed.
+
+Lemma inv_intr s i s' : Inv s -> step s (LIntr i) = Some s' -> Inv s'.
+Proof.
+  intros I H. simpl in H. brk H. inversion H; subst; clear H. tsk I E.
+  apply andb_prop in E0 as [E0 E2]. apply andb_prop in E0 as [E0 E1].
+  assert (forall w k, getw s w = Some k -> w_pc k = WCreated i -> t_phase (set_ret t) = PNew w).
+  { intros w k Gk P. destruct (inv_workers _ I _ _ Gk) as (_ & _ & _ & _ & F). rewrite P in F.
+    destruct F as ((t1 & F1 & F2) & _). rewrite E in F1; inversion F1; subst. auto. }
+  eapply inv_local with (t := t) (t' := set_ret t); eauto; try reflexivity.
+  - unfold task_ok in *. simpl. destruct TO as (A & B & C). repeat split; auto. intros X; congruence.
+  - simpl. unfold gett in E. erewrite modn_some; eauto.
+  - apply (inv_flags _ I).
+Qed.
+
+Lemma flags_of s : Inv s -> flags_ok s.
+Proof. intros I. apply (inv_flags _ I). Qed.
+
+Lemma inv_copy s i s' : Inv s -> step s (LCopy i) = Some s' -> Inv s'.
+Proof.
+  intros I H. simpl in H. brk H; tsk I E; unfold tw_ok in TW; rewrite E0 in TW;
+    destruct TW as (k & Gk & SL & DJ & IL); rewrite Gk in E2; inversion E2; subst; clear E2;
+    rewrite SL in E3; try discriminate E3.
+  injection E3 as <-. injection H as <-.
+  apply owns_spec in E1 as (k' & Gk' & CU). rewrite Gk in Gk'; inversion Gk'; subst k'; clear Gk'.
+  assert (PC : forall w' k', getw s w' = Some k' -> w_pc k' <> WCreated i).
+  { intros w' k' G' P. destruct (inv_workers _ I _ _ G') as (_ & _ & _ & _ & F). rewrite P in F.
+    destruct F as ((t1 & F1 & F2) & _). rewrite E in F1; inversion F1; subst t1. rewrite E0 in F2; inversion F2; subst w'.
+    rewrite Gk in G'; inversion G'; subst k'. destruct DJ as [[D1 D2]|[D1 [D2|D2]]]; congruence. }
+  eapply inv_local with (t := t) (t' := set_phase t (PCopied w i)); eauto; try reflexivity.
+  - rewrite E0; discriminate.
+  - rewrite E0; discriminate.
+  - intros w'. simpl. rewrite E0. reflexivity.
+  - unfold task_ok in *. rewrite E0 in TO. simpl. tauto.
+  - unfold tw_ok. simpl. eauto.
+  - intros w' k' G' P. exfalso. eapply PC; eauto.
+  - simpl. unfold gett in E. erewrite modn_some; eauto.
+  - destruct (flags_of _ I) as (A & B & C & D). unfold flags_ok; simpl. rewrite A, Nat.eqb_refl. auto.
+Qed.
+
+Lemma inv_start s i s' : Inv s -> step s (LStart i) = Some s' -> Inv s'.
+Proof.
+  intros I H. simpl in H. brk H. tsk I E. inversion H; subst; clear H.
+  assert (rec = i) by (unfold task_ok in TO; rewrite E0 in TO; tauto). subst rec.
+  rewrite E in E2; inversion E2; subst t0; clear E2.
+  eapply inv_local with (t := t) (t' := set_phase (inc_runs t) (PBody w i)); eauto; try reflexivity.
+  - rewrite E0; discriminate.
+  - rewrite E0; discriminate.
+  - intros w'. simpl. rewrite E0. reflexivity.
+  - unfold task_ok in *. rewrite E0 in TO. simpl. destruct TO as ((_ & A & B & C & D) & F & G). rewrite A. tauto.
+  - unfold tw_ok in *. rewrite E0 in TW. simpl. auto.
+  - intros w' k' G' P. exfalso. revert P. eapply no_created; eauto. intros w''; rewrite E0; discriminate.
+  - simpl. unfold gett in E. erewrite modn_modn_same; eauto.
+  - destruct (flags_of _ I) as (A & B & C & D). unfold flags_ok; simpl. repeat split; auto.
+    intros X. rewrite (D X). simpl.
+    unfold task_ok in TO. rewrite E0 in TO. destruct TO as ((_ & _ & _ & _ & SG) & F & G).
+    destruct (t_ret t) eqn:R; [|apply andb_false_r]. exfalso. specialize (F X eq_refl). congruence.
+Qed.
+
+Lemma inv_finish s i s' : Inv s -> step s (LFinish i) = Some s' -> Inv s'.
+Proof.
+  intros I H. simpl in H. brk H. tsk I E. inversion H; subst; clear H.
+  assert (rec = i) by (unfold task_ok in TO; rewrite E0 in TO; tauto). subst rec.
+  eapply inv_local with (t := t) (t' := set_phase (inc_fin t) (PFin w i)); eauto; try reflexivity.
+  - rewrite E0; discriminate.
+  - rewrite E0; discriminate.
+  - intros w'. simpl. rewrite E0. reflexivity.
+  - unfold task_ok in *. rewrite E0 in TO. simpl. destruct TO as ((_ & A & B & C & D) & F & G). rewrite B. tauto.
+  - unfold tw_ok in *. rewrite E0 in TW. simpl. auto.
+  - intros w' k' G' P. exfalso. revert P. eapply no_created; eauto. intros w''; rewrite E0; discriminate.
+  - simpl. unfold gett in E. erewrite modn_modn_same; eauto.
+  - apply (flags_of _ I).
+Qed.
+
+Lemma inv_signal s i s' : Inv s -> step s (LSignal i) = Some s' -> Inv s'.
+Proof.
+  intros I H. simpl in H. brk H. tsk I E. inversion H; subst; clear H.
+  assert (rec = i) by (unfold task_ok in TO; rewrite E0 in TO; tauto). subst rec.
+  rewrite E in E2; inversion E2; subst t0; clear E2.
+  eapply inv_local with (t := t) (t' := set_phase (set_sig t) (PPost w i)); eauto; try reflexivity.
+  - rewrite E0; discriminate.
+  - rewrite E0; discriminate.
+  - intros w'. simpl. rewrite E0. reflexivity.
+  - unfold task_ok in *. rewrite E0 in TO. simpl. destruct TO as ((_ & A & B & C & D) & F & G). rewrite E3. tauto.
+  - unfold tw_ok in *. rewrite E0 in TW. simpl. auto.
+  - intros w' k' G' P. exfalso. revert P. eapply no_created; eauto. intros w''; rewrite E0; discriminate.
+  - simpl. unfold gett in E. erewrite modn_modn_same; eauto.
+  - destruct (flags_of _ I) as (A & B & C & D). unfold flags_ok; simpl. repeat split; auto.
+    intros X. rewrite (D X). simpl.
+    unfold task_ok in TO. rewrite E0 in TO. destruct TO as ((_ & _ & _ & _ & SG) & F & G).
+    destruct (t_ret t) eqn:R; auto. exfalso. specialize (F X eq_refl). congruence.
+Qed.
+
+Lemma inv_delete s i s' : Inv s -> step s (LDelete i) = Some s' -> Inv s'.
+Proof.
+  intros I H. simpl in H. brk H. tsk I E. inversion H; subst; clear H.
+  assert (rec = i) by (unfold task_ok in TO; rewrite E0 in TO; tauto). subst rec.
+  rewrite E in E2; inversion E2; subst t0; clear E2.
+  eapply inv_local with (t := t) (t' := set_phase (inc_del t) (PPost w i)); eauto; try reflexivity.
+  - rewrite E0; discriminate.
+  - rewrite E0; discriminate.
+  - intros w'. simpl. rewrite E0. reflexivity.
+  - unfold task_ok in *. rewrite E0 in TO. simpl. destruct TO as ((_ & A & B & C & D) & F & G). rewrite E3, C. simpl. repeat split; auto. intros X. apply G in X. congruence.
+  - unfold tw_ok in *. rewrite E0 in TW. simpl. auto.
+  - intros w' k' G' P. exfalso. revert P. eapply no_created; eauto. intros w''; rewrite E0; discriminate.
+  - simpl. unfold gett in E. erewrite modn_modn_same; eauto.
+  - apply (flags_of _ I).
+Qed.
+
+Definition pw (p : phase) : option nat :=
+  match p with PGot w | PNew w | PCopied w _ | PBody w _ | PFin w _ | PPost w _ => Some w | _ => None end.
+
+Lemma worker_ok_frame s s' w k :
+  s_tasks s' = s_tasks s -> s_ring s' = s_ring s -> s_dpc s' = s_dpc s -> s_inline s' = s_inline s ->
+  worker_ok s w k -> worker_ok s' w k.
+Proof. unfold worker_ok, gett. intros -> -> -> ->. auto. Qed.
+
+(* only worker w changes *)
+Lemma inv_wlocal s s' w k k' :
+  Inv s -> getw s w = Some k ->
+  s_workers s' = upd (s_workers s) w k' ->
+  s_tasks s' = s_tasks s -> s_ring s' = s_ring s -> s_dpc s' = s_dpc s ->
+  s_inline s' = s_inline s -> s_intr s' = s_intr s -> flags_ok s' ->
+  worker_ok s w k' ->
+  (forall i t, gett s i = Some t -> pw (t_phase t) = Some w -> tw_ok s' i t) ->
+  Inv s'.
+Proof.
+  intros I G Hw Ht Hr Hd Hi Hn HF WK HT.
+  assert (Gw : forall v, getw s' v = if Nat.eqb v w then Some k' else getw s v).
+  { intros v. unfold getw. rewrite Hw, nth_error_upd. fold (getw s w). rewrite G. reflexivity. }
+  assert (Gt : forall j, gett s' j = gett s j) by (intros; unfold gett; rewrite Ht; auto).
+  constructor.
+  - intros j t1 H. rewrite Gt in H. destruct (inv_tasks _ I _ _ H) as [TO TW]. rewrite Hn. split; auto.
+    destruct (pw (t_phase t1)) as [w1|] eqn:P.
+    + destruct (Nat.eq_dec w1 w) as [->|NE]; [eauto|].
+      unfold tw_ok in *. rewrite Hi.
+      destruct (t_phase t1); simpl in P; try discriminate; inversion P; subst;
+        rewrite Gw; (destruct (Nat.eqb w1 w) eqn:X; [apply Nat.eqb_eq in X; congruence|]); auto.
+    + unfold tw_ok in *. rewrite Hr. destruct (t_phase t1); simpl in P; try discriminate; auto.
+  - intros v kv H. rewrite Gw in H. destruct (Nat.eqb v w) eqn:X.
+    + apply Nat.eqb_eq in X; subst v. inversion H; subst kv. eapply worker_ok_frame; eauto.
+    + eapply worker_ok_frame; eauto. apply (inv_workers _ I); auto.
+  - rewrite Hr. apply (inv_ring_nodup _ I).
+  - intros j H. rewrite Hr in H. rewrite Gt. apply (inv_ring_in _ I _ H).
+  - rewrite Hr. apply (inv_shape _ I).
+  - rewrite Hr, Hd. apply (inv_idle _ I).
+  - exact HF.
+Qed.
+
+Definition tw_at (inl : bool) (i : nat) (p : phase) (k : worker) : Prop :=
+  match p with
+  | PGot _ => w_pc k = WGot (ITask i)
+  | PNew _ => w_slot k = Some i /\
+              ((w_pc k = WCreated i /\ w_cur k = None) \/ (w_cur k = Some i /\ (w_pc k = WLoop \/ w_pc k = WInline i))) /\
+              (inl = true -> w_pc k = WInline i)
+  | PCopied _ _ | PBody _ _ | PFin _ _ | PPost _ _ => inl = true -> w_pc k = WInline i
+  | _ => True
+  end.
+Lemma tw_ok_at s i t w : pw (t_phase t) = Some w ->
+  (tw_ok s i t <-> exists k, getw s w = Some k /\ tw_at (s_inline s) i (t_phase t) k).
+Proof. unfold tw_ok, tw_at. destruct (t_phase t); simpl; intros P; try discriminate; inversion P; subst; tauto. Qed.
+
+Lemma inv_wlocal' s s' w k k' :
+  Inv s -> getw s w = Some k ->
+  s_workers s' = upd (s_workers s) w k' ->
+  s_tasks s' = s_tasks s -> s_ring s' = s_ring s -> s_dpc s' = s_dpc s ->
+  s_inline s' = s_inline s -> s_intr s' = s_intr s -> flags_ok s' ->
+  worker_ok s w k' ->
+  (forall i t, gett s i = Some t -> pw (t_phase t) = Some w ->
+               tw_at (s_inline s) i (t_phase t) k -> tw_at (s_inline s) i (t_phase t) k') ->
+  Inv s'.
+Proof.
+  intros I G Hw Ht Hr Hd Hi Hn HF WK HT.
+  eapply inv_wlocal; eauto.
+  intros i t Gt P. destruct (inv_tasks _ I _ _ Gt) as [_ TW].
+  apply (tw_ok_at s i t w P) in TW. destruct TW as (k0 & Gk0 & A). rewrite G in Gk0; inversion Gk0; subst k0.
+  apply (tw_ok_at s' i t w P). exists k'. split.
+  - unfold getw. rewrite Hw. eapply nth_error_upd_same; eauto.
+  - rewrite Hi. eauto.
+Qed.
+
+Lemma upd_of_modw s w k f : getw s w = Some k -> s_workers (modw s w f) = upd (s_workers s) w (f k).
+Proof. intros H. unfold modw; simpl. apply modn_some; auto. Qed.
+
+Lemma inv_register s w s' : Inv s -> step s (LRegister w) = Some s' -> Inv s'.
+Proof.
+  intros I H. simpl in H. brk H. injection H as <-. apply disp_at_spec in E as [G CU].
+  destruct (inv_workers _ I _ _ G) as (A & B & C & D & F).
+  eapply inv_wlocal'; eauto using upd_of_modw; try reflexivity; try apply (flags_of _ I).
+  - unfold worker_ok; simpl. rewrite E1 in *. simpl in *. repeat split; auto; try congruence.
+  - intros i t Gt P. unfold tw_at. rewrite E1. destruct (t_phase t); simpl; auto; try congruence.
+    + intros (S1 & [[X Y]|[X [Y|Y]]] & Z); congruence.
+    + intros X Y. specialize (X Y); congruence.
+    + intros X Y. specialize (X Y); congruence.
+    + intros X Y. specialize (X Y); congruence.
+    + intros X Y. specialize (X Y); congruence.
+Qed.
+
+Lemma inv_yieldto s w s' : Inv s -> step s (LYieldTo w) = Some s' -> Inv s'.
+Proof.
+  intros I H. simpl in H. brk H. injection H as <-. apply disp_at_spec in E as [G CU].
+  destruct (inv_workers _ I _ _ G) as (A & B & C & D & F). rewrite E0 in F. destruct F as ((t0 & F1 & F2) & F3).
+  eapply inv_wlocal'; eauto using upd_of_modw; try reflexivity; try apply (flags_of _ I).
+  - unfold worker_ok; simpl. rewrite E0 in *. simpl in *. repeat split; auto; try congruence.
+  - intros j t Gt P. unfold tw_at. rewrite E0, F3. destruct (t_phase t); simpl; auto; try congruence.
+    intros (S1 & [[X Y]|[X [Y|Y]]] & Z); try congruence. injection X as <-. repeat split; auto; try congruence.
+Qed.
+
+Lemma inv_stop s w s' : Inv s -> step s (LStop w) = Some s' -> Inv s'.
+Proof.
+  intros I H. simpl in H. brk H. injection H as <-. apply disp_at_spec in E as [G CU].
+  destruct (inv_workers _ I _ _ G) as (A & B & C & D & F). rewrite E0 in F.
+  eapply inv_wlocal'; eauto using upd_of_modw; try reflexivity; try apply (flags_of _ I).
+  - unfold worker_ok; simpl. rewrite E0 in *. simpl in *. repeat split; auto; try congruence; tauto.
+  - intros j t Gt P. unfold tw_at. rewrite E0. simpl. destruct (t_phase t); simpl; auto; try congruence.
+    + intros (S1 & [[X Y]|[X [Y|Y]]] & Z); congruence.
+    + intros X Y. specialize (X Y); congruence.
+    + intros X Y. specialize (X Y); congruence.
+    + intros X Y. specialize (X Y); congruence.
+    + intros X Y. specialize (X Y); congruence.
+Qed.
+
+Lemma inv_drained s w s' : Inv s -> step s (LDrained w) = Some s' -> Inv s'.
+Proof.
+  intros I H. simpl in H. brk H. injection H as <-. apply disp_at_spec in E as [G CU].
+  destruct (inv_workers _ I _ _ G) as (A & B & C & D & F). rewrite E0 in F. apply Nat.eqb_eq in E1.
+  eapply inv_wlocal'; eauto using upd_of_modw; try reflexivity; try apply (flags_of _ I).
+  - unfold worker_ok; simpl. rewrite E0 in *. simpl in *. repeat split; auto; try congruence; tauto.
+  - intros j t Gt P. unfold tw_at. rewrite E0. simpl. destruct (t_phase t); simpl; auto; try congruence.
+    + intros (S1 & [[X Y]|[X [Y|Y]]] & Z); congruence.
+    + intros X Y. specialize (X Y); congruence.
+    + intros X Y. specialize (X Y); congruence.
+    + intros X Y. specialize (X Y); congruence.
+    + intros X Y. specialize (X Y); congruence.
+Qed.
+
+Lemma inv_yield s w tgt s' : Inv s -> step s (LYield w tgt) = Some s' -> Inv s'.
+Proof.
+  intros I H. simpl in H. brk H. injection H as <-. rename E into G. apply andb_prop in E0 as [AS TG].
+  destruct (inv_workers _ I _ _ G) as (A & B & C & D & F).
+  eapply inv_wlocal'; eauto using upd_of_modw; try reflexivity; try apply (flags_of _ I).
+  - unfold worker_ok in *; simpl. auto.
+  - intros j t Gt P. unfold tw_at. simpl. destruct (t_phase t) eqn:PH; simpl; auto.
+    intros (S1 & DJ & Z). exfalso. unfold at_switch in AS.
+    destruct (w_cur w0) as [i0|] eqn:CU.
+    + destruct (gett s i0) as [t0|] eqn:G0; try discriminate. destruct (t_phase t0) eqn:P0; try discriminate.
+      destruct DJ as [[X Y]|[X Y]]; try congruence.
+    + destruct DJ as [[X Y]|[X Y]]; try congruence. rewrite X in AS. discriminate.
+Qed.
+
+(* a step of the destructor: tasks and workers untouched *)
+Lemma inv_dlocal s s' :
+  Inv s ->
+  s_tasks s' = s_tasks s -> s_workers s' = s_workers s -> s_inline s' = s_inline s -> s_intr s' = s_intr s ->
+  rtasks (s_ring s') = rtasks (s_ring s) -> shape_ok (s_ring s') = true ->
+  s_dpc s' <> DIdle ->
+  (s_dpc s' = DDone -> forall w k, getw s w = Some k -> w_reg k = false) ->
+  flags_ok s' -> Inv s'.
+Proof.
+  intros I Ht Hw Hi Hn Hr Hs Hd HD HF.
+  constructor.
+  - intros j t H. unfold gett in H; rewrite Ht in H. destruct (inv_tasks _ I _ _ H) as [TO TW]. rewrite Hn. split; auto.
+    unfold tw_ok, getw in *. rewrite Hr, Hw, Hi. auto.
+  - intros w k H. unfold getw in H; rewrite Hw in H. destruct (inv_workers _ I _ _ H) as (A & B & C & D & F).
+    unfold worker_ok, gett. rewrite Ht, Hr, Hi. repeat split; auto.
+    + intros X. eapply HD; eauto.
+    + destruct (w_pc k); auto. destruct x; auto; tauto. tauto. tauto.
+  - rewrite Hr. apply (inv_ring_nodup _ I).
+  - intros j H. rewrite Hr in H. unfold gett; rewrite Ht. apply (inv_ring_in _ I _ H).
+  - exact Hs.
+  - intros X; contradiction.
+  - exact HF.
+Qed.
+
+Lemma inv_dbegin s s' : Inv s -> step s LDBegin = Some s' -> Inv s'.
+Proof.
+  intros I H. simpl in H. brk H. injection H as <-.
+  eapply inv_dlocal; eauto; try reflexivity; simpl; try discriminate.
+  - apply (inv_shape _ I).
+  - apply (flags_of _ I).
+Qed.
+
+Lemma inv_dpush s s' : Inv s -> step s LDPush = Some s' -> Inv s'.
+Proof.
+  intros I H. simpl in H. brk H. injection H as <-.
+  eapply inv_dlocal; eauto; try reflexivity; simpl; try discriminate.
+  - rewrite rtasks_app. simpl. apply app_nil_r.
+  - apply shape_app_stop. apply (inv_shape _ I).
+  - apply (flags_of _ I).
+Qed.
+
+Lemma inv_dfinal s s' : Inv s -> step s LDFinal = Some s' -> Inv s'.
+Proof.
+  intros I H. simpl in H. brk H. injection H as <-.
+  eapply inv_dlocal; eauto; try reflexivity; simpl; try discriminate.
+  - apply (inv_shape _ I).
+  - intros _ w k G. unfold getw in G. apply nth_error_In in G.
+    rewrite forallb_forall in E1. apply E1 in G. destruct (w_reg k); auto; discriminate.
+  - apply (flags_of _ I).
+Qed.
+
+Lemma nil_of_no_in {A} (l : list A) : (forall x, ~ In x l) -> l = [].
+Proof. destruct l; auto. intros H. exfalso. apply (H a). simpl; auto. Qed.
+
+Lemma in_rtasks l j : In (ITask j) l <-> In j (rtasks l).
+Proof.
+  induction l as [|y l IH]; simpl; [tauto|]. destruct y; simpl.
+  - split.
+    + intros [X|X]; [inversion X; auto | right; apply IH; auto].
+    + intros [X|X]; [subst; auto | right; apply IH; auto].
+  - split.
+    + intros [X|X]; [discriminate | apply IH; auto].
+    + intros X; right; apply IH; auto.
+Qed.
+
+(* task i and worker w change together (recv of a task, dispatch, helper exit) *)
+Lemma inv_tw s s' i t t' w k k' :
+  Inv s -> gett s i = Some t -> getw s w = Some k ->
+  s_tasks s' = upd (s_tasks s) i t' -> s_workers s' = upd (s_workers s) w k' ->
+  s_dpc s' = s_dpc s -> s_inline s' = s_inline s -> s_intr s' = s_intr s -> flags_ok s' ->
+  (* the ring *)
+  NoDup (rtasks (s_ring s')) -> shape_ok (s_ring s') = true ->
+  (forall x, In x (s_ring s') -> In x (s_ring s)) ->
+  (forall j, j <> i -> In j (rtasks (s_ring s)) -> In j (rtasks (s_ring s'))) ->
+  (In i (rtasks (s_ring s')) -> t_phase t' = PRing) ->
+  (* the task *)
+  task_ok (s_intr s) i t' ->
+  match pw (t_phase t') with Some w' => w' = w /\ tw_at (s_inline s) i (t_phase t') k' | None => t_phase t' = PDone end ->
+  (forall v, v <> w -> exw v (t_phase t') = exw v (t_phase t) /\ t_phase t <> PGot v /\ t_phase t <> PNew v) ->
+  (* the other tasks of worker w *)
+  (forall j tj, j <> i -> gett s j = Some tj -> pw (t_phase tj) = Some w ->
+                tw_at (s_inline s) j (t_phase tj) k -> tw_at (s_inline s) j (t_phase tj) k') ->
+  (* the worker *)
+  worker_ok s' w k' ->
+  Inv s'.
+Proof.
+  intros I G Gk Ht Hw Hd Hi Hn HF ND SH RS RK RI TO TW OV OT WK.
+  assert (Gt : forall j, gett s' j = if Nat.eqb j i then Some t' else gett s j).
+  { intros j. unfold gett. rewrite Ht, nth_error_upd. fold (gett s i). rewrite G. reflexivity. }
+  assert (Gw : forall v, getw s' v = if Nat.eqb v w then Some k' else getw s v).
+  { intros v. unfold getw. rewrite Hw, nth_error_upd. fold (getw s w). rewrite Gk. reflexivity. }
+  assert (RN : forall j, In j (rtasks (s_ring s')) -> In j (rtasks (s_ring s))).
+  { intros j H. apply in_rtasks. apply RS. apply in_rtasks. auto. }
+  constructor.
+  - intros j tj H. rewrite Gt in H. rewrite Hn. destruct (Nat.eqb j i) eqn:Ej.
+    + apply Nat.eqb_eq in Ej; subst j. inversion H; subst tj. split; auto.
+      destruct (pw (t_phase t')) as [w'|] eqn:P.
+      * destruct TW as [-> TW]. apply (tw_ok_at s' i t' w P). exists k'. rewrite Gw, Nat.eqb_refl, Hi. auto.
+      * unfold tw_ok. rewrite TW. auto.
+    + apply Nat.eqb_neq in Ej. destruct (inv_tasks _ I _ _ H) as [TOj TWj]. split; auto.
+      destruct (pw (t_phase tj)) as [w1|] eqn:P.
+      * apply (tw_ok_at s j tj w1 P) in TWj. destruct TWj as (k1 & Gk1 & A1).
+        apply (tw_ok_at s' j tj w1 P). rewrite Gw, Hi. destruct (Nat.eqb w1 w) eqn:X.
+        -- apply Nat.eqb_eq in X; subst w1. rewrite Gk in Gk1; inversion Gk1; subst k1. eauto.
+        -- eauto.
+      * unfold tw_ok in *. destruct (t_phase tj); simpl in P; try discriminate; auto.
+  - intros v kv H. rewrite Gw in H. destruct (Nat.eqb v w) eqn:X.
+    + apply Nat.eqb_eq in X; subst v. inversion H; subst kv. exact WK.
+    + apply Nat.eqb_neq in X. destruct (inv_workers _ I _ _ H) as (A & B & C & D & F).
+      destruct (OV _ X) as (O1 & O2 & O3).
+      unfold worker_ok. rewrite Hd, Hi. repeat split; auto.
+      * rewrite B, Ht. assert (Y := count_exec_upd v (s_tasks s) i t t' G). rewrite O1 in Y. lia.
+      * destruct (w_pc kv) eqn:P; auto.
+        -- destruct x.
+           ++ destruct F as (t1 & F1 & F2). rewrite Gt. destruct (Nat.eqb i0 i) eqn:Ej; eauto.
+              apply Nat.eqb_eq in Ej; subst. rewrite G in F1; inversion F1; subst. contradiction.
+           ++ destruct F as [F1 F2]. split; auto. apply nil_of_no_in. intros j Hj. apply RN in Hj. rewrite F2 in Hj. exact Hj.
+        -- destruct F as ((t1 & F1 & F2) & F3). split; auto. rewrite Gt. destruct (Nat.eqb i0 i) eqn:Ej; eauto.
+           apply Nat.eqb_eq in Ej; subst. rewrite G in F1; inversion F1; subst. contradiction.
+        -- destruct F as [F1 F2]. split; auto. apply nil_of_no_in. intros j Hj. apply RN in Hj. rewrite F2 in Hj. exact Hj.
+        -- destruct F as [F1 F2]. split; auto. apply nil_of_no_in. intros j Hj. apply RN in Hj. rewrite F2 in Hj. exact Hj.
+  - exact ND.
+  - intros j H. rewrite Gt. destruct (Nat.eqb j i) eqn:Ej.
+    + apply Nat.eqb_eq in Ej; subst. eauto.
+    + apply (inv_ring_in _ I). auto.
+  - exact SH.
+  - rewrite Hd. intros X Y. apply (inv_idle _ I X). auto.
+  - exact HF.
+Qed.
+
+Lemma inv_pop_stop s r : Inv s -> s_ring s = IStop :: r -> Inv (set_ring s r).
+Proof.
+  intros I R.
+  assert (RT : rtasks (s_ring s) = rtasks r) by (rewrite R; reflexivity).
+  constructor; simpl.
+  - intros j t H. destruct (inv_tasks _ I _ _ H) as [TO TW]. split; auto.
+    unfold tw_ok in *. simpl. rewrite <- RT. exact TW.
+  - intros w k H. destruct (inv_workers _ I _ _ H) as (A & B & C & D & F).
+    unfold worker_ok in *; simpl. rewrite <- RT. auto.
+  - rewrite <- RT. apply (inv_ring_nodup _ I).
+  - intros j H. rewrite <- RT in H. apply (inv_ring_in _ I _ H).
+  - assert (X := inv_shape _ I). rewrite R in X. eapply shape_tail; eauto.
+  - intros X Y. apply (inv_idle _ I X). rewrite R. simpl; auto.
+  - apply (inv_flags _ I).
+Qed.
+
+Lemma not_done_of_loop s w k : Inv s -> getw s w = Some k -> w_pc k = WLoop -> s_dpc s <> DDone.
+Proof.
+  intros I G P X. destruct (inv_workers _ I _ _ G) as (A & _ & _ & D & _).
+  rewrite P in A. simpl in A. rewrite (D X) in A. discriminate.
+Qed.
+
+Lemma inv_recv s w s' : Inv s -> step s (LRecv w) = Some s' -> Inv s'.
+Proof.
+  intros I H. simpl in H. brk H. apply disp_at_spec in E as [G CU]. rename E0 into R. rename E1 into P.
+  assert (ND := not_done_of_loop _ _ _ I G P).
+  assert (FL : g_ringuaf s || match s_dpc s with DDone => true | _ => false end = false).
+  { destruct (flags_of _ I) as (_ & _ & X & _). rewrite X. destruct (s_dpc s); auto. congruence. }
+  destruct i as [i|].
+  - (* a task *)
+    injection H as <-.
+    assert (IN : In i (rtasks (s_ring s))) by (rewrite R; simpl; auto).
+    destruct (inv_ring_in _ I _ IN) as (t & Gt & PH).
+    assert (NDP := inv_ring_nodup _ I). rewrite R in NDP. simpl in NDP. inversion NDP as [|? ? NI NDr]; subst.
+    destruct (inv_workers _ I _ _ G) as (A & B & C & D & F).
+    eapply inv_tw with (t := t) (t' := set_phase t (PGot w)) (k := w0) (k' := set_wpc w0 (WGot (ITask i))); eauto; try reflexivity.
+    + simpl. unfold gett in Gt. rewrite (modn_some _ _ _ _ Gt). reflexivity.
+    + simpl. unfold getw in G. rewrite (modn_some _ _ _ _ G). reflexivity.
+    + destruct (flags_of _ I) as (X1 & X2 & X3 & X4). unfold flags_ok; simpl. rewrite FL. auto.
+    + simpl. eapply shape_tail. rewrite <- R. apply (inv_shape _ I).
+    + simpl. intros x X. rewrite R. simpl; auto.
+    + simpl. intros j NE X. rewrite R in X. simpl in X. destruct X; congruence.
+    + simpl. intros X. contradiction.
+    + destruct (inv_tasks _ I _ _ Gt) as [TO _]. unfold task_ok in *. rewrite PH in TO. simpl. exact TO.
+    + simpl. split; auto.
+    + intros v NE. simpl. rewrite PH. simpl. repeat split; auto; discriminate.
+    + intros j tj NE Gj PW. unfold tw_at. rewrite P. simpl. destruct (t_phase tj); auto; try congruence.
+      * intros (S1 & [[X Y]|[X [Y|Y]]] & Z); congruence.
+      * intros X Y. specialize (X Y); congruence.
+      * intros X Y. specialize (X Y); congruence.
+      * intros X Y. specialize (X Y); congruence.
+      * intros X Y. specialize (X Y); congruence.
+    + unfold worker_ok; simpl. rewrite P in *. simpl in *. repeat split; auto.
+      * rewrite B. unfold gett in Gt. rewrite (modn_some _ _ _ _ Gt).
+        assert (Y := count_exec_upd w (s_tasks s) i t (set_phase t (PGot w)) Gt). rewrite PH in Y. simpl in Y. lia.
+      * exists (set_phase t (PGot w)). split; auto. rewrite gett_modt, Nat.eqb_refl.
+        unfold gett in *. simpl. rewrite Gt. reflexivity.
+  - (* a stop marker *)
+    injection H as <-.
+    assert (I1 := inv_pop_stop _ _ I R).
+    assert (DN : s_dpc s <> DIdle) by (intros X; apply (inv_idle _ I X); rewrite R; simpl; auto).
+    assert (RT : rtasks l = []) by (apply shape_stop_head; rewrite <- R; apply (inv_shape _ I)).
+    destruct (inv_workers _ I _ _ G) as (A & B & C & D & F).
+    eapply inv_wlocal' with (s := set_ring s l) (k := w0) (k' := set_wpc w0 (WGot IStop)); eauto; try reflexivity.
+    + simpl. unfold getw in G. rewrite (modn_some _ _ _ _ G). reflexivity.
+    + destruct (flags_of _ I) as (X1 & X2 & X3 & X4). unfold flags_ok; simpl. rewrite FL. auto.
+    + unfold worker_ok; simpl. rewrite P in *. simpl in *. repeat split; auto.
+    + intros j tj Gj PW. unfold tw_at. rewrite P. simpl. destruct (t_phase tj); auto; try congruence.
+      * intros (S1 & [[X Y]|[X [Y|Y]]] & Z); congruence.
+      * intros X Y. specialize (X Y); congruence.
+      * intros X Y. specialize (X Y); congruence.
+      * intros X Y. specialize (X Y); congruence.
+      * intros X Y. specialize (X Y); congruence.
+Qed.
+
+Lemma inv_dispatch s w s' : Inv s -> step s (LDispatch w) = Some s' -> Inv s'.
+Proof.
+  intros I H. simpl in H. brk H. apply disp_at_spec in E as [G CU]. rename E0 into P. rename E2 into Gt. clear E1.
+  destruct (inv_workers _ I _ _ G) as (A & B & C & D & F). rewrite P in F. destruct F as (t0 & F1 & PH).
+  rewrite Gt in F1; injection F1 as <-. injection H as <-.
+  set (k' := if s_inline s then mkWorker (WInline i) (Some i) (S (w_running w0)) (w_reg w0) (Some i)
+             else mkWorker (WCreated i) (Some i) (S (w_running w0)) (w_reg w0) None).
+  eapply inv_tw with (t := t) (t' := set_phase t (PNew w)) (k := w0) (k' := k'); eauto; try reflexivity.
+  - simpl. unfold gett in Gt. rewrite (modn_some _ _ _ _ Gt). reflexivity.
+  - simpl. unfold getw in G. rewrite (modn_some _ _ _ _ G). reflexivity.
+  - apply (flags_of _ I).
+  - apply (inv_ring_nodup _ I).
+  - apply (inv_shape _ I).
+  - simpl. intros X. destruct (inv_ring_in _ I _ X) as (t1 & X1 & X2). rewrite Gt in X1; injection X1 as <-. congruence.
+  - destruct (inv_tasks _ I _ _ Gt) as [TO _]. unfold task_ok in *. rewrite PH in TO. simpl. exact TO.
+  - simpl. split; auto. unfold k'. destruct (s_inline s) eqn:IL; simpl; repeat split; auto; try discriminate.
+  - intros v NE. simpl. rewrite PH. simpl. apply Nat.eqb_neq in NE. rewrite Nat.eqb_sym in NE. rewrite NE.
+    repeat split; auto; try discriminate. intros X; injection X as ->. rewrite Nat.eqb_refl in NE; discriminate.
+  - intros j tj NE Gj PW. unfold tw_at. rewrite P. simpl. destruct (t_phase tj); auto; try congruence.
+    + intros (S1 & [[X Y]|[X [Y|Y]]] & Z); congruence.
+    + intros X Y. specialize (X Y); congruence.
+    + intros X Y. specialize (X Y); congruence.
+    + intros X Y. specialize (X Y); congruence.
+    + intros X Y. specialize (X Y); congruence.
+  - assert (CNT : count_exec w (upd (s_tasks s) i (set_phase t (PNew w))) = S (count_exec w (s_tasks s))).
+    { assert (Y := count_exec_upd w (s_tasks s) i t (set_phase t (PNew w)) Gt). rewrite PH in Y. simpl in Y.
+      rewrite Nat.eqb_refl in Y. simpl in Y. lia. }
+    assert (GT' : gett (modt s i (fun t => set_phase t (PNew w))) i = Some (set_phase t (PNew w))).
+    { rewrite gett_modt, Nat.eqb_refl. rewrite Gt. reflexivity. }
+    unfold worker_ok, k'. rewrite P in *. simpl in *.
+    unfold gett in Gt. rewrite (modn_some _ _ _ _ Gt), CNT.
+    destruct (s_inline s) eqn:IL; simpl; repeat split; auto; try discriminate.
+    exists (set_phase t (PNew w)). split; auto.
+Qed.
+
+Lemma inv_dec s i tgt s' : Inv s -> step s (LDec i tgt) = Some s' -> Inv s'.
+Proof.
+  intros I H. simpl in H. brk H. rename E into Gt. rename E0 into PH. rename E2 into G. rename E3 into TG.
+  apply owns_spec in E1 as (k0 & G0 & CU). rewrite G in G0; injection G0 as <-. injection H as <-.
+  destruct (inv_tasks _ I _ _ Gt) as [TO TW]. apply (tw_ok_at s i t w) in TW; [|rewrite PH; reflexivity].
+  destruct TW as (k0 & G0 & TA). rewrite G in G0; injection G0 as <-. unfold tw_at in TA. rewrite PH in TA.
+  destruct (inv_workers _ I _ _ G) as (A & B & C & D & F).
+  assert (POS : 1 <= w_running w0).
+  { rewrite B. eapply count_exec_pos; eauto. rewrite PH. simpl. apply Nat.eqb_refl. }
+  assert (NOUT : is_out (w_pc w0) = false).
+  { destruct (is_out (w_pc w0)) eqn:X; auto. rewrite C in POS; auto. lia. }
+  assert (BAD : is_out (w_pc w0) || Nat.eqb (w_running w0) 0 = false).
+  { rewrite NOUT. simpl. apply Nat.eqb_neq. lia. }
+  set (k' := mkWorker (if s_inline s then WLoop else w_pc w0) (w_slot w0) (Nat.pred (w_running w0)) (w_reg w0) tgt).
+  eapply inv_tw with (t := t) (t' := set_phase t PDone) (k := w0) (k' := k'); eauto; try reflexivity.
+  - simpl. unfold gett in Gt. rewrite (modn_some _ _ _ _ Gt). reflexivity.
+  - simpl. unfold getw in G. rewrite (modn_some _ _ _ _ G). reflexivity.
+  - destruct (flags_of _ I) as (X1 & X2 & X3 & X4). unfold flags_ok; simpl. rewrite X2, BAD. auto.
+  - apply (inv_ring_nodup _ I).
+  - apply (inv_shape _ I).
+  - simpl. intros X. destruct (inv_ring_in _ I _ X) as (t1 & X1 & X2). rewrite Gt in X1; injection X1 as <-. congruence.
+  - unfold task_ok in *. rewrite PH in TO. simpl. tauto.
+  - intros v NE. simpl. rewrite PH. simpl. apply Nat.eqb_neq in NE. rewrite Nat.eqb_sym in NE. rewrite NE.
+    repeat split; auto; discriminate.
+  - intros j tj NE Gj PW. unfold tw_at, k'. simpl. destruct (t_phase tj) eqn:PJ; auto.
+    + destruct (s_inline s) eqn:IL; auto. intros X. rewrite TA in X; auto. discriminate.
+    + intros (S1 & [[X Y]|[X Y]] & Z); try congruence.
+    + destruct (s_inline s) eqn:IL; auto. intros X Y. specialize (X Y). rewrite TA in X; auto. congruence.
+    + destruct (s_inline s) eqn:IL; auto. intros X Y. specialize (X Y). rewrite TA in X; auto. congruence.
+    + destruct (s_inline s) eqn:IL; auto. intros X Y. specialize (X Y). rewrite TA in X; auto. congruence.
+    + destruct (s_inline s) eqn:IL; auto. intros X Y. specialize (X Y). rewrite TA in X; auto. congruence.
+  - assert (CNT : S (count_exec w (upd (s_tasks s) i (set_phase t PDone))) = count_exec w (s_tasks s)).
+    { assert (Y := count_exec_upd w (s_tasks s) i t (set_phase t PDone) Gt). rewrite PH in Y. simpl in Y.
+      rewrite Nat.eqb_refl in Y. simpl in Y. lia. }
+    assert (Gt' := Gt).
+    unfold worker_ok, k'. simpl. unfold gett in Gt. rewrite (modn_some _ _ _ _ Gt).
+    assert (GO : forall j, j <> i -> gett (modt s i (fun t => set_phase t PDone)) j = gett s j).
+    { intros j NE. rewrite gett_modt. apply Nat.eqb_neq in NE. rewrite NE. reflexivity. }
+    destruct (s_inline s) eqn:IL; simpl.
+    + repeat split; auto; try lia. rewrite A, NOUT. reflexivity.
+    + repeat split; auto; try lia.
+      * rewrite NOUT. discriminate.
+      * destruct (w_pc w0) eqn:P; auto.
+        -- destruct x; auto. destruct F as (t1 & F1 & F2). exists t1. split; auto.
+           unfold gett in *; simpl. rewrite ?(modn_some _ _ _ _ Gt), nth_error_upd.
+           destruct (Nat.eqb i0 i) eqn:Ej; auto. apply Nat.eqb_eq in Ej; subst. rewrite Gt in F1; injection F1 as <-. congruence.
+        -- destruct F as ((t1 & F1 & F2) & F3). split; auto. exists t1. split; auto.
+           unfold gett in *; simpl. rewrite ?(modn_some _ _ _ _ Gt), nth_error_upd.
+           destruct (Nat.eqb i0 i) eqn:Ej; auto. apply Nat.eqb_eq in Ej; subst. rewrite Gt in F1; injection F1 as <-. congruence.
+Qed.
+
+Lemma inv_submit s c s' : Inv s -> step s (LSubmit c) = Some s' -> Inv s'.
+Proof.
+  intros I H. simpl in H. brk H. injection H as <-. rename E into DI.
+  set (n := length (s_tasks s)). set (nt := mkTask c PRing 0 0 0 false false).
+  assert (Gt : forall j, gett (set_ring (set_tasks s (s_tasks s ++ [nt])) (s_ring s ++ [ITask n])) j =
+                         if Nat.eqb j n then Some nt else gett s j).
+  { intros j. unfold gett; simpl. destruct (Nat.eqb j n) eqn:Ej.
+    - apply Nat.eqb_eq in Ej; subst j. rewrite nth_error_app2; [|unfold n; lia]. unfold n. rewrite Nat.sub_diag. reflexivity.
+    - apply Nat.eqb_neq in Ej. destruct (Nat.lt_ge_cases j n) as [L|L].
+      + rewrite nth_error_app1; auto.
+      + assert (nth_error (s_tasks s) j = None) as -> by (apply nth_error_None; fold n; lia).
+        apply nth_error_None. rewrite app_length; simpl. fold n. lia. }
+  assert (LT : forall j t, gett s j = Some t -> j <> n).
+  { intros j t X. assert (j < n). { unfold n. apply nth_error_Some. unfold gett in X. congruence. } lia. }
+  assert (NI : ~ In n (rtasks (s_ring s))).
+  { intros X. destruct (inv_ring_in _ I _ X) as (t & X1 & _). eapply LT; eauto. }
+  constructor.
+  - intros j t X. rewrite Gt in X. destruct (Nat.eqb j n) eqn:Ej.
+    + apply Nat.eqb_eq in Ej; subst j. injection X as <-. split.
+      * unfold task_ok; simpl. repeat split; auto; discriminate.
+      * unfold tw_ok; simpl. rewrite rtasks_app. apply in_or_app. right. simpl; auto.
+    + destruct (inv_tasks _ I _ _ X) as [TO TW]. split; auto.
+      unfold tw_ok in *. simpl. destruct (t_phase t); auto. rewrite rtasks_app. apply in_or_app; auto.
+  - intros w k X. change (getw s w = Some k) in X. destruct (inv_workers _ I _ _ X) as (A & B & C & D & F).
+    unfold worker_ok. simpl. repeat split; auto.
+    + rewrite count_exec_app. unfold count_exec at 2. simpl. rewrite B. lia.
+    + destruct (w_pc k); auto.
+      * destruct x.
+        -- destruct F as (t1 & F1 & F2). exists t1. split; auto. rewrite Gt.
+           destruct (Nat.eqb i n) eqn:Ej; auto. apply Nat.eqb_eq in Ej. exfalso. eapply LT; eauto.
+        -- destruct F. contradiction.
+      * destruct F as ((t1 & F1 & F2) & F3). split; auto. exists t1. split; auto. rewrite Gt.
+        destruct (Nat.eqb i n) eqn:Ej; auto. apply Nat.eqb_eq in Ej. exfalso. eapply LT; eauto.
+      * destruct F. contradiction.
+      * destruct F. contradiction.
+  - simpl. rewrite rtasks_app. simpl.
+    assert (forall (l : list nat) x, NoDup l -> ~ In x l -> NoDup (l ++ [x])) as AUX.
+    { induction l as [|a l IH]; simpl; intros x N1 N2. constructor; auto; constructor.
+      inversion N1; subst. constructor. intros Y. apply in_app_or in Y. destruct Y as [Y|[Y|[]]]; auto. apply IH; auto. }
+    apply AUX; auto. apply (inv_ring_nodup _ I).
+  - intros j X. simpl in X. rewrite rtasks_app in X. apply in_app_or in X. rewrite Gt. destruct X as [X|[X|[]]].
+    + destruct (Nat.eqb j n) eqn:Ej. apply Nat.eqb_eq in Ej; subst; contradiction. apply (inv_ring_in _ I _ X).
+    + subst j. rewrite Nat.eqb_refl. eauto.
+  - simpl. apply shape_app_task. apply (inv_shape _ I). apply (inv_idle _ I DI).
+  - simpl. intros _ X. apply in_app_or in X. destruct X as [X|[X|[]]]; try discriminate. apply (inv_idle _ I DI X).
+  - apply (flags_of _ I).
+Qed.
+
+Theorem step_inv s l s' : Inv s -> step s l = Some s' -> Inv s'.
+Proof.
+  intros I H. destruct l.
+  - eapply inv_submit; eauto.
+  - eapply inv_return; eauto.
+  - eapply inv_intr; eauto.
+  - eapply inv_register; eauto.
+  - eapply inv_recv; eauto.
+  - eapply inv_dispatch; eauto.
+  - eapply inv_yieldto; eauto.
+  - eapply inv_stop; eauto.
+  - eapply inv_drained; eauto.
+  - eapply inv_yield; eauto.
+  - eapply inv_copy; eauto.
+  - eapply inv_start; eauto.
+  - eapply inv_finish; eauto.
+  - eapply inv_signal; eauto.
+  - eapply inv_delete; eauto.
+  - eapply inv_dec; eauto.
+  - eapply inv_dbegin; eauto.
+  - eapply inv_dpush; eauto.
+  - eapply inv_dfinal; eauto.
+Qed.
+
+Definition reachable (s0 s : state) : Prop := exists ls, run s0 ls = Some s.
+
+Lemma run_inv ls : forall s s', Inv s -> run s ls = Some s' -> Inv s'.
+Proof.
+  induction ls as [|l ls IH]; simpl; intros s s' I H.
+  - injection H as <-. auto.
+  - destruct (step s l) as [s0|] eqn:E; try discriminate. apply (IH s0 s'); auto. eapply step_inv; eauto.
+Qed.
+
+Theorem reachable_inv inline cap no nj intr s : reachable (init inline cap no nj intr) s -> Inv s.
+Proof. intros [ls H]. eapply run_inv; eauto. apply init_inv. Qed.
+
+(* ================= the property theorems ================= *)
+Section PROPS.
+  Variables (inline : bool) (cap no nj : nat).
+
+  Lemma exw_of_pw w p : pw p = Some w -> (forall w', p <> PGot w') -> exw w p = true.
+  Proof. destruct p; simpl; intros H N; try discriminate; injection H as ->; try apply Nat.eqb_refl. exfalso; eapply N; eauto. Qed.
+
+  Theorem task_exactly_once_pf intr s : reachable (init inline cap no nj intr) s ->
+    forall i t, gett s i = Some t ->
+      t_runs t <= 1 /\ t_fin t <= t_runs t /\
+      (t_runs t = 0 ->
+         In (ITask i) (s_ring s) \/
+         (exists w k, getw s w = Some k /\ w_pc k = WGot (ITask i)) \/
+         (exists w k, getw s w = Some k /\ exw w (t_phase t) = true /\ 1 <= w_running k)).
+  Proof.
+    intros R i t G. apply reachable_inv in R. destruct (inv_tasks _ R _ _ G) as [TO TW].
+    unfold task_ok in TO. unfold tw_ok in TW.
+    assert (EX : forall w, exw w (t_phase t) = true -> (exists k, getw s w = Some k) ->
+                 exists w k, getw s w = Some k /\ exw w (t_phase t) = true /\ 1 <= w_running k).
+    { intros w Ew (k & Gk). exists w, k. repeat split; auto.
+      destruct (inv_workers _ R _ _ Gk) as (_ & B & _). rewrite B. eapply count_exec_pos; eauto. }
+    destruct (t_phase t) eqn:PH; destruct TO as (TO & _); repeat split; try lia; intros Z; try lia.
+    - left. apply in_rtasks; auto.
+    - right; left. destruct TW as (k & Gk & P). eauto.
+    - right; right. destruct TW as (k & Gk & _). apply (EX w); eauto. simpl. apply Nat.eqb_refl.
+    - right; right. destruct TW as (k & Gk & _). apply (EX w); eauto. simpl. apply Nat.eqb_refl.
+  Qed.
+
+  Theorem record_read_is_own_pf intr s : reachable (init inline cap no nj intr) s ->
+    g_badcopy s = false /\
+    (forall i t w, gett s i = Some t -> t_phase t = PNew w -> exists k, getw s w = Some k /\ w_slot k = Some i) /\
+    (forall i t w r, gett s i = Some t ->
+       (t_phase t = PCopied w r \/ t_phase t = PBody w r \/ t_phase t = PFin w r \/ t_phase t = PPost w r) -> r = i).
+  Proof.
+    intros R. apply reachable_inv in R. split; [apply (inv_flags _ R)|]. split.
+    - intros i t w G P. destruct (inv_tasks _ R _ _ G) as [_ TW]. unfold tw_ok in TW. rewrite P in TW.
+      destruct TW as (k & Gk & S1 & _). eauto.
+    - intros i t w r G P. destruct (inv_tasks _ R _ _ G) as [TO _]. unfold task_ok in TO.
+      destruct P as [P|[P|[P|P]]]; rewrite P in TO; tauto.
+  Qed.
+
+  Theorem call_returns_after_finish_pf s : reachable (init inline cap no nj false) s ->
+    g_uaf s = false /\
+    forall i t, gett s i = Some t -> t_ret t = true -> t_call t = true /\ t_runs t = 1 /\ t_fin t = 1 /\ t_sig t = true.
+  Proof.
+    intros R. assert (IN : s_intr s = false).
+    { destruct R as [ls R]. revert R. generalize (init inline cap no nj false) (eq_refl : s_intr (init inline cap no nj false) = false).
+      induction ls as [|l ls IH]; simpl; intros s0 H0 H.
+      - injection H as <-; auto.
+      - destruct (step s0 l) as [s1|] eqn:E; try discriminate. apply (IH s1); auto.
+        rewrite <- H0. clear - E. destruct l; simpl in E; brk E; injection E as <-; try reflexivity.
+        all: try (destruct i; reflexivity). all: try (destruct (s_inline s0); reflexivity). }
+    apply reachable_inv in R. split; [apply (inv_flags _ R); auto|].
+    intros i t G RT. destruct (inv_tasks _ R _ _ G) as [TO _]. unfold task_ok in TO. rewrite IN in TO.
+    destruct TO as (TO & F & C). specialize (F eq_refl RT). specialize (C RT).
+    destruct (t_phase t); try (destruct TO as (_ & _ & _ & S0); congruence);
+      try (destruct TO as (_ & _ & _ & _ & S0); congruence); tauto.
+  Qed.
+
+  Theorem async_deleted_once_pf intr s : reachable (init inline cap no nj intr) s ->
+    forall i t, gett s i = Some t ->
+      t_del t <= 1 /\ (t_del t = 1 -> t_call t = false /\ t_fin t = 1) /\ (t_call t = true -> t_del t = 0).
+  Proof.
+    intros R i t G. apply reachable_inv in R. destruct (inv_tasks _ R _ _ G) as [TO _]. unfold task_ok in TO.
+    destruct TO as (TO & _). destruct (t_phase t), (t_call t); repeat split; intros; try lia; try tauto; try discriminate.
+  Qed.
+
+  Theorem destroy_waits_pf intr s s' : reachable (init inline cap no nj intr) s ->
+    step s LDFinal = Some s' ->
+    (exists w k, getw s w = Some k /\ w_pc k <> WReg) ->
+    rtasks (s_ring s) = [] /\
+    forall i t, gett s i = Some t ->
+      t_phase t = PDone /\ t_runs t = 1 /\ t_fin t = 1 /\ t_del t = (if t_call t then 0 else 1) /\ t_sig t = t_call t.
+  Proof.
+    intros R H (w0 & k0 & G0 & P0). apply reachable_inv in R. simpl in H. brk H. clear H.
+    assert (REG : forall w k, getw s w = Some k -> w_reg k = false).
+    { intros w k G. unfold getw in G. apply nth_error_In in G. rewrite forallb_forall in E1. apply E1 in G.
+      destruct (w_reg k); auto; discriminate. }
+    assert (OUT : forall w k, getw s w = Some k -> is_out (w_pc k) = true /\ w_running k = 0).
+    { intros w k G. destruct (inv_workers _ R _ _ G) as (A & _ & C & _). rewrite (REG _ _ G) in A.
+      destruct (is_out (w_pc k)); try discriminate. auto. }
+    assert (RT : rtasks (s_ring s) = []).
+    { destruct (inv_workers _ R _ _ G0) as (_ & _ & _ & _ & F). destruct (OUT _ _ G0) as [O _].
+      destruct (w_pc k0); try discriminate; try congruence. tauto. }
+    split; auto. intros i t G. destruct (inv_tasks _ R _ _ G) as [TO TW].
+    assert (NX : forall w, exw w (t_phase t) = true -> (exists k, getw s w = Some k) -> False).
+    { intros w Ew (k & Gk). destruct (OUT _ _ Gk) as [_ Z]. destruct (inv_workers _ R _ _ Gk) as (_ & B & _).
+      assert (1 <= count_exec w (s_tasks s)) by (eapply count_exec_pos; eauto). lia. }
+    unfold tw_ok in TW. unfold task_ok in TO. destruct (t_phase t) eqn:PH.
+    - rewrite RT in TW. contradiction.
+    - destruct TW as (k & Gk & P). destruct (OUT _ _ Gk) as [O _]. rewrite P in O. discriminate.
+    - exfalso. destruct TW as (k & Gk & _). apply (NX w); eauto. simpl. apply Nat.eqb_refl.
+    - exfalso. destruct TW as (k & Gk & _). apply (NX w); eauto. simpl. apply Nat.eqb_refl.
+    - exfalso. destruct TW as (k & Gk & _). apply (NX w); eauto. simpl. apply Nat.eqb_refl.
+    - exfalso. destruct TW as (k & Gk & _). apply (NX w); eauto. simpl. apply Nat.eqb_refl.
+    - exfalso. destruct TW as (k & Gk & _). apply (NX w); eauto. simpl. apply Nat.eqb_refl.
+    - tauto.
+  Qed.
+
+  Theorem no_stale_access_pf intr s : reachable (init inline cap no nj intr) s ->
+    g_badcount s = false /\ g_ringuaf s = false.
+  Proof. intros R. apply reachable_inv in R. destruct (inv_flags _ R) as (_ & A & B & _). auto. Qed.
+End PROPS.
+
+(* ---- refutations (findings / degenerate configuration) ---- *)
+Definition witness_intr : list label := [LSubmit true; LIntr 0].
+Definition witness_uaf : list label :=
+  [LSubmit true; LIntr 0; LRecv 0; LDispatch 0; LYieldTo 0; LCopy 0; LStart 0].
+Theorem call_returns_after_finish_refuted_pf :
+  (exists s t, run (init false 4 1 0 true) witness_intr = Some s /\ gett s 0 = Some t /\ t_ret t = true /\ t_fin t = 0) /\
+  (exists s, run (init false 4 1 0 true) witness_uaf = Some s /\ g_uaf s = true).
+Proof. split; [eexists; eexists|eexists]; vm_compute; repeat split; reflexivity. Qed.
+
+Definition witness_noworker : list label := [LSubmit false; LDBegin; LDFinal].
+Theorem destroy_waits_noworker_refuted_pf :
+  exists s t, run (init false 4 0 0 false) witness_noworker = Some s /\ s_dpc s = DDone /\
+              gett s 0 = Some t /\ t_fin t = 0.
+Proof. eexists; eexists; vm_compute; repeat split; reflexivity. Qed.
+
+(* a non-trivial reachable state meeting the hypotheses of destroy_waits: one worker, two tasks, mode 0 *)
+Definition sample_run : list label :=
+  [LSubmit true; LSubmit false; LRecv 0; LDispatch 0; LYieldTo 0; LCopy 0; LStart 0; LYield 0 None;
+   LDBegin; LRecv 0; LDispatch 0; LYieldTo 0; LCopy 1; LStart 1; LFinish 1; LDelete 1; LDec 1 (Some 0);
+   LFinish 0; LSignal 0; LDec 0 None; LReturn 0; LDPush; LRecv 0; LStop 0; LDrained 0].
+Example sample_reachable :
+  exists s s', run (init false 2 1 0 false) sample_run = Some s /\ step s LDFinal = Some s' /\
+               (exists w k, getw s w = Some k /\ w_pc k <> WReg) /\ length (s_tasks s) = 2.
+Proof. eexists; eexists; vm_compute; repeat split; try reflexivity. exists 0, (mkWorker WExit (Some 1) 0 false None). split; [reflexivity|discriminate]. Qed.
